@@ -376,6 +376,12 @@ func (w *World) genTx(n *Node) (*ledger.Transaction, string) {
 			p.outs = append(p.outs, &JOutput{third.Addr, true, amount - amount/2})
 		}
 	}
+	if kind == "valid" && r.Chance(1, 10) {
+		// everything goes to the fee: one plain output of value zero (legal; nothing is created, the
+		// inputs are consumed all the same)
+		p.outs = []*JOutput{{rcpt.Addr, false, 0}}
+		w.stats.Count("tx/fee-only (single zero-valued output)")
+	}
 	switch kind {
 	case "low-fee":
 		if total >= 1 {
@@ -454,7 +460,7 @@ func (w *World) mutateChain(blocks []*JBlock, forced ...string) ([]*JBlock, stri
 	j := 1 + r.Intn(len(bs)-1)
 	var b *JBlock
 	kind := []string{"ts-shift", "future", "two-rewards", "no-reward", "big-reward", "tx-late", "tx-early", "bad-link",
-		"truncate", "drop-first", "reward-yield", "dup-tx", "added-bogus", "removed-bogus", "stale", "big-reward-1", "unlist-yield", "yield-unlisted", "yield-unlisted", "double-spend", "double-spend"}[r.Intn(21)]
+		"truncate", "drop-first", "reward-yield", "dup-tx", "added-bogus", "removed-bogus", "stale", "big-reward-1", "unlist-yield", "yield-unlisted", "yield-unlisted", "double-spend", "double-spend", "yield-removed", "yield-removed"}[r.Intn(23)]
 	if len(forced) > 0 {
 		kind = forced[0]
 	}
@@ -470,6 +476,39 @@ func (w *World) mutateChain(blocks []*JBlock, forced ...string) ([]*JBlock, stri
 			if found {
 				j = jj
 				break
+			}
+		}
+	}
+	if kind == "yield-removed" {
+		kind = "yield-unlisted"
+		// an address an earlier block of this chain lists as removed (and none lists again since)
+		gone := ""
+		for jj := 1; jj < len(bs)-1; jj++ {
+			for _, a := range bs[jj].RemovedRegisteredAddresses {
+				gone = a
+			}
+			for _, a := range bs[jj].AddedRegisteredAddresses {
+				if a == gone {
+					gone = ""
+				}
+			}
+		}
+		if gone != "" {
+			for jj := len(bs) - 1; jj >= 2; jj-- {
+				done := false
+				for _, t := range bs[jj].Transactions {
+					if len(t.Inputs) != 0 {
+						t.Outputs = append(t.Outputs, &JOutput{gone, true, 0})
+						t.Id = t.ComputeId()
+						done = true
+						break
+					}
+				}
+				if done {
+					Relink(bs, jj)
+					w.stats.Count("mutate/yield-removed (a yielding output to an address the chain removed, not listed)")
+					return bs, fmt.Sprintf("yield-removed(%d below the tip)@%d", len(bs)-1-jj, jj)
+				}
 			}
 		}
 	}
@@ -801,8 +840,10 @@ func (w *World) run(steps int) {
 			}
 		case k < 88 && w.mode != "honest": // income juggling: two admitted transactions, only one order of which can be produced
 			w.yieldSwap()
-		case k < 94 && w.mode != "honest": // a pooled transaction that an adopted block makes unproducible
+		case k < 92 && w.mode != "honest": // a pooled transaction that an adopted block makes unproducible
 			w.yieldRace()
+		case k < 94 && w.mode != "honest": // a neighbor pays income to an address the chain has removed
+			w.removedYield()
 		default: // registry refresh
 			ans := map[string]int{}
 			for _, wl := range w.wallets {
@@ -1111,6 +1152,76 @@ func (w *World) noteGoodSigs(tx *ledger.Transaction) {
 // in the block the host then adopts, another transaction that also gives A one. Only the
 // production-time replay of the pooled transaction on the working copy (two incomes for one
 // address) can keep it out of the host's next block.
+// removedYield: an address registered by the chain is flagged by the proof-of-humanity service; the
+// host's next block lists it as removed and the one after confirms that. A neighbor holding the same
+// chain then extends it with a block in which an ordinary transaction gives that address a yielding
+// output without listing it: the address is not registered any more, the block must be refused.
+func (w *World) removedYield() {
+	host := w.host
+	var gone *Wallet
+	for _, wl := range w.wallets {
+		if !host.Areg.IsRegistered(wl.Addr) {
+			continue
+		}
+		// a registered address that holds no yielding output at the moment (it spent it): a new
+		// income output to it is then refused for one reason only - it is not registered any more
+		holds := false
+		for _, u := range host.Ureg.Utxos(wl.Addr) {
+			holds = holds || u.IsYielding()
+		}
+		for _, l := range [][]*ledger.Transaction{host.Pool.Transactions(), host.Chain.LastBlockTransactions()} {
+			for _, t := range l {
+				for _, o := range t.Outputs() {
+					holds = holds || (o.IsYielding() && o.Address() == wl.Addr)
+				}
+			}
+		}
+		if !holds || gone == nil {
+			gone = wl
+			if !holds {
+				break
+			}
+		}
+	}
+	if gone == nil || len(host.AllBlocks()) < 2 {
+		w.stats.Count("removed-yield=no registered address")
+		return
+	}
+	ans := map[string]int{gone.Addr: 0}
+	w.rec.RegSync(ans)
+	w.tickAll()
+	w.rec.Validate(w.now)
+	w.tickAll()
+	w.rec.Validate(w.now)
+	h := NewNode(w.set, w.helpers[0].Validator)
+	h.Humans.answer = ans
+	h.Pool.Validate(host.Chain.FirstBlockTimestamp())
+	helperSync(h, w.now, []*Peer{honestPeer("10.0.0.1:10600", host)})
+	hb, nb := host.AllBlocks(), h.AllBlocks()
+	if len(hb) != len(nb) || blockHashHex(hb[len(hb)-1]) != blockHashHex(nb[len(nb)-1]) || host.Areg.IsRegistered(gone.Addr) {
+		w.stats.Count("removed-yield=not set up")
+		return
+	}
+	w.tickAll()
+	paid := false
+	for _, wl := range w.wallets {
+		for _, u := range w.confirmed(h, wl) {
+			if !paid && u.value > 3*w.set.Fee+30 {
+				tx := w.build(&txPlan{ins: []spendable{u}, outs: []*JOutput{{w.wallets[2].Addr, false, (u.value - w.set.Fee) / 2}, {wl.Addr, false, u.value - w.set.Fee - (u.value-w.set.Fee)/2 - 1}}, ts: w.now - 1})
+				before := len(h.Pool.Transactions())
+				h.Pool.AddTransaction(tx, "x", "y")
+				w.rec.noteTx(tx)
+				paid = len(h.Pool.Transactions()) > before
+			}
+		}
+	}
+	h.Pool.Validate(w.now)
+	h.Log.Take()
+	mut, kind := w.mutateChain(MirrorBlocks(h.AllBlocks()), "yield-removed")
+	res := w.rec.Update(w.now, []*Peer{staticPeer("10.7.7.7:10600", mut, w.set.Limit)})
+	w.stats.Count(fmt.Sprintf("removed-yield=%s/%s", kind[:indexOrLen(kind, '@')], res[:indexOrLen(res, ':')]))
+}
+
 func (w *World) yieldRace() {
 	host, h := w.host, w.helpers[0]
 	hb, nb := host.AllBlocks(), h.AllBlocks()
